@@ -43,7 +43,7 @@ def build(ck, seed, count, extra_specs=None):
     failures = []
     for attempt in range(4):
         rendered = [S.render(s) for s in all_specs]
-        header = "#![allow(async_fn_in_trait)]\n"
+        header = "#![no_std]\n#![allow(async_fn_in_trait)]\n"
         src = header + "\n".join(rendered) + "\n"
         d, h = _write_ws(src)
         fs = ctx.factset(ck, "wit-%d-%d-%s" % (seed, count, h), custom=(os.path.join(d, "wit"), ["--lib"], "wit", "wit" + h))
@@ -51,7 +51,7 @@ def build(ck, seed, count, extra_specs=None):
             break
         # map error lines to modules
         starts = []
-        line = 2
+        line = 3
         for sp, r in zip(all_specs, rendered):
             starts.append((line, line + r.count("\n"), sp))
             line += r.count("\n") + 1
@@ -226,11 +226,11 @@ def compile_cases(ck, specs, tag="cf"):
     import ctx
     import re
     rendered = [S.render(s) for s in specs]
-    src = "#![allow(async_fn_in_trait)]\n" + "\n".join(rendered) + "\n"
+    src = "#![no_std]\n#![allow(async_fn_in_trait)]\n" + "\n".join(rendered) + "\n"
     d, h = _write_ws(src)
     fs = ctx.factset(ck, "%s-%s" % (tag, h), custom=(os.path.join(d, "wit"), ["--lib"], "__none__", tag + h))
     starts = []
-    line = 2
+    line = 3
     for sp, r in zip(specs, rendered):
         starts.append((line, line + r.count("\n"), sp["mod"]))
         line += r.count("\n") + 1
